@@ -164,7 +164,7 @@ class RustFile:
             k -= 1
         start = k + 1
         # skip leading whitespace but keep from the beginning of the first non-blank line
-        while start < kw_idx and self.src[start] in " \t\r\n":
+        while start < kw_idx and self.mask[start] in " \t\r\n":
             start += 1
         # doc comments are masked; src[start] may be '/' of '///' — fine, we keep them (X1 strips)
         return start
